@@ -137,9 +137,28 @@ def int_bounds(g, q: Rat):
     return lo, hi
 
 
+def _clamped_position(a: Atom):
+    """max(c, e) / min(c, e) with a constant c and e a position expression: (c, e)."""
+    if len(a.args) != 2:
+        return None
+    cs = [x for x in a.args if x.is_const() is not None]
+    es = [x for x in a.args if x.is_const() is None]
+    if len(cs) != 1 or len(es) != 1:
+        return None
+    inner = es[0]
+    ia = single_atom(inner)
+    if ia is not None and ia.name in ("int", "floor") and len(ia.args) == 1:
+        inner = ia.args[0]
+    ats = [t for t in inner.atoms() if t.kind == "fn" and (t.name in ("argmax", "argmin") or t.name.endswith("searchsorted"))]
+    if len(ats) != 1:
+        return None
+    return cs[0], inner
+
+
 def position_atom(idx: Rat):
     """idx = s * atom + rest with s = +1 / -1 and atom the single position-valued call of the expression."""
-    cands = [a for a in idx.atoms() if a.kind == "fn" and (a.name in ("argmax", "argmin", "int", "floor") or a.name.endswith("searchsorted"))]
+    cands = [a for a in idx.atoms() if a.kind == "fn" and (a.name in ("argmax", "argmin", "int", "floor") or a.name.endswith("searchsorted")
+                                                         or (a.name in ("max", "min") and _clamped_position(a) is not None))]
     if len(cands) != 1:
         return None
     lin = linear_in(idx, cands[0])
